@@ -1111,6 +1111,7 @@ static qtreetbl_obj_t *remove_min(qtreetbl_obj_t *obj) {
         // 3-nodes are left-leaning, so this is a leaf.
         free(obj->name);
         free(obj->data);
+        free(obj);
         return NULL;
     }
     if (!is_red(obj->left) && !is_red(obj->left->left)) {
